@@ -389,6 +389,45 @@ def check_filter_call_sites(ctx):
                 ctx.violation(f"filter-call-site:empty-item-in-{lname}-data-statement", f"{src!r}: {nfilter} filter calls for {numeric_targets} numeric READ targets, unquoted DATA items {unquoted[:3]} (empty item present: {has_empty})", {"source": src, "emitted": text})
 
 
+def check_function_call_sites(ctx):
+    """the call sites of the two string helpers: whatever the count / start index is spelled as (0, 1, 2, 255, a variable,
+    an expression, start index omitted), STRING$ and INSTR reach their procedure with exactly the source operands - nothing
+    is folded away at conversion time.  Both machines run source and emitted text; the helper is one uninterpreted
+    function on both sides, so z3 finds the difference as soon as a call is replaced by something else."""
+    from vf.realconv import classify
+    from vf.tv import equiv
+
+    lib = tvlib.load_library()
+    counts = ["0", "1", "2", "3", "255", "1.0", "&H1", "N", "N + 1", "LEN ( B$ )", "1 * 1"]
+    strs = ["A$", '"XY"', '""', 'A$ + "Q"', "LEFT$ ( A$ , 2 )"]
+    progs = [f"10 Z$ = STRING$ ( {c} , {sx} )" for c in counts for sx in strs]
+    progs += [f"10 PRINT STRING$ ( {c} , A$ ) ; \"|\"" for c in counts[:5]] + [f'10 IF STRING$ ( {c} , A$ ) = "X" THEN Z = 1' for c in counts[:5]]
+    starts = ["1", "2", "0", "255", "N", "N + 1", "1.0", "&H1"]
+    progs += [f"10 Z = INSTR ( {st} , A$ , B$ )" for st in starts] + ["10 Z = INSTR ( A$ , B$ )", '10 Z = INSTR ( 1 , A$ , "" )', '10 Z = INSTR ( 1 , "" , B$ )', "10 Z = INSTR ( 1 , A$ , A$ )",
+                                                                     "10 IF INSTR ( 1 , A$ , B$ ) = 0 THEN Z = 1", "10 PRINT INSTR ( 2 , A$ , B$ )", "10 Q ( INSTR ( 1 , A$ , B$ ) ) = 1"]
+    for src in progs:
+        o = classify(src + "\n")
+        ctx.stats["programs"] += 1
+        if o[0] != "ok":
+            ctx.stats["obligations"] += 1
+            ctx.stats["identity"] += 1  # refusals are C15's subject
+            continue
+        res = equiv.compare(src, o[1], library=lib)
+        ctx.stats["obligations"] += max(1, res.counts.get("obligations", 0))
+        ctx.stats["identity"] += res.counts.get("identity", 0)
+        if res.status in ("refgap", "outside"):
+            ctx.harness_gap(f"{src!r}: {res.note}")
+            continue
+        bad = [f for f in res.findings if f.kind in ("value-differs", "trace-differs", "syntax", "type-error")]
+        if bad:
+            fn = "STRING$" if "STRING$" in src else "INSTR"
+            m = re.search(r"(STRING\$|INSTR) \( ([^,]*?) ,", src)
+            first = (m.group(2) if m else "omitted").strip()
+            cls = first if re.fullmatch(r"[0-9.&H]+", first) else "expression" if " " in first or "(" in first else "omitted" if first.endswith("$") else "variable"
+            ctx.violation(f"call-site:{fn}:first-operand={cls}:{bad[0].kind}", f"{src!r} -> {o[1].strip()!r}: {bad[0].kind}: {bad[0].detail[:120]}", {"source": src, "emitted": o[1]})
+    ctx.bounds["call_site_programs"] = len(progs)
+
+
 def run(tier):
     ctx = Ctx("C20", tier, "model_checking", technique="symbolic execution of the real ecb.b09 procedures by the BASIC09 machine over z3 strings (bounded length, interpreted LEN/MID$/FIX), loops unrolled by path forking, both zero-trip FOR readings; z3 decides result = Color BASIC definition per path")
     smt.reset_stats()
@@ -408,6 +447,7 @@ def run(tier):
     check_read_filter(ctx, lib)
     check_data_items(ctx, tier)
     check_filter_call_sites(ctx)
+    check_function_call_sites(ctx)
     ctx.stats["traces_validated_against_impl"] += 0
     ctx.add_solver_stats(smt.STATS.export())
     ctx.extra["solver"] = {"z3": smt.z3_version()}
